@@ -290,7 +290,12 @@ func init() {
 		}
 		// fixed witnesses of the findings recorded / repaired so far and a few classics
 		for _, t := range []string{"", " ", "1 ##", "1 /* a *", "@a |", "[1] /* a *", "\n[", "{", "/", "//", "/a", "1 // {", "1 // {min", "@", "@a", "{@", "1 // {:1}",
-			"[1] // c\nx", "{} ##", "1 #", "###", "### a", "1 // {enum: @", "{\n\n", "\"", "\"\\", "\"\\u", "-", "1.", "1e", "[1,", "{\"a\"", "{\"a\":", "tru", "nul", "/*", "1 /*", "1 /* {", "1 // {or: [", "1 // {or: [{"} {
+			"[1] // c\nx", "{} ##", "1 #", "###", "### a", "1 // {enum: @", "{\n\n", "\"", "\"\\", "\"\\u", "-", "1.", "1e", "[1,", "{\"a\"", "{\"a\":", "tru", "nul", "/*", "1 /*", "1 /* {", "1 // {or: [", "1 // {or: [{",
+			// numerals at the edges of what fits anywhere: long exponents, long mantissas, many leading zeros of the exponent
+			"1e0000001", "1E+0000000001", "-0.0e-0000001", "1e99999", "1e-99999", "123456789012345678901234567890", "0." + strings.Repeat("0123456789", 30),
+			"-" + strings.Repeat("9", 400), "1e" + strings.Repeat("0", 300) + "1",
+			// lines longer than the excerpt of an error message, made of bytes that are not characters on their own
+			strings.Repeat("\x80", 300), strings.Repeat("\u00e9", 150) + "x", "{\n" + strings.Repeat("\xbf", 260), strings.Repeat("a", 198) + "\u20ac" + strings.Repeat("b", 50)} {
 			try(t)
 		}
 		// a required reference cycle (the recursion error is a recorded finding: its witness is always part of the trace)
